@@ -4,8 +4,16 @@
    problem's collection; Surface, Transform: likewise since the fix: commits).
 
    Objects are identities (nat).  The world outside the collection is the total
-   maps [num] (current number of every object), [olink] (object._problem is the
-   problem that owns this collection) and [otype] (isinstance(obj, obj_class)).
+   maps [num] (current number of every object), [okey] (the value of the object
+   apart from its number: Surface.__eq__ and Material.__eq__ compare that value
+   and the number, so Python's ==, which list.remove / list.index / `in` use, is
+   [oeq]; for Cell, Transform, Universe == is identity and the caller passes an
+   injective [okey]), [olink] (object._problem is: nothing / the problem that
+   owns this collection / another problem) and [otype] (isinstance(obj,
+   obj_class)).  [fobjs] are the members of the collection of the same kind in
+   that other problem: the number setter of an object linked there validates
+   against them, and [FAppend] is that collection's append (it takes the object
+   over: link_to_problem overwrites the link).
    No proofs in this file. *)
 From Coq Require Import List ZArith Bool String Ascii Lia.
 From MPV Require Import Model.Wire.
@@ -14,13 +22,17 @@ Open Scope Z_scope.
 
 Definition oid := nat.
 
+Inductive link := LNone | LThis | LOther.
+
 Record st := mkst {
   objs   : list oid;            (* _objects, in order *)
   cache  : list (Z * oid);      (* __num_cache: association list, first binding wins *)
   num    : oid -> Z;            (* obj.number for every object of the world *)
-  olink  : oid -> bool;         (* obj._problem is set (to the owner of this collection) *)
+  okey   : oid -> nat;          (* value-equality class of the object without its number *)
+  olink  : oid -> link;         (* obj._problem: None / owner of this collection / another problem *)
   otype  : oid -> bool;         (* isinstance(obj, self._obj_class) *)
-  clink  : bool                 (* self._problem is set *)
+  clink  : bool;                (* self._problem is set *)
+  fobjs  : list oid             (* _objects of the same-kind collection of the other problem *)
 }.
 
 Inductive err := TypeErr | ValueErr | NumberConflict | KeyErr | IndexErr | OutOfFuel.
@@ -54,7 +66,9 @@ Inductive op :=
 | CheckNumber (n : Z)
 | RequestNumber (start step : Z)
 | NextNumber (step : Z)
-| Slice (start stop step : option Z).
+| Slice (start stop step : option Z)
+| FAppend (o : oid)              (* other_problem.<collection>.append(o) *)
+| SliceAppend (start stop step : option Z) (o : oid).   (* c[start:stop:step].append(o) *)
 
 (* ---------- cache (a Python dict: unique keys; modelled as assoc list) ---------- *)
 Fixpoint cache_get (c : list (Z * oid)) (n : Z) : option oid :=
@@ -70,14 +84,28 @@ Definition cache_set (c : list (Z * oid)) (n : Z) (o : oid) : list (Z * oid) :=
 Definition cache_evict (c : list (Z * oid)) (o : oid) : list (Z * oid) :=
   filter (fun p => negb (Nat.eqb (snd p) o)) c.
 
-Definition set_objs (s : st) l := mkst l (cache s) (num s) (olink s) (otype s) (clink s).
-Definition set_cache (s : st) c := mkst (objs s) c (num s) (olink s) (otype s) (clink s).
+Definition set_objs (s : st) l :=
+  mkst l (cache s) (num s) (okey s) (olink s) (otype s) (clink s) (fobjs s).
+Definition set_cache (s : st) c :=
+  mkst (objs s) c (num s) (okey s) (olink s) (otype s) (clink s) (fobjs s).
 Definition set_num (s : st) (o : oid) (n : Z) :=
-  mkst (objs s) (cache s) (fun x => if Nat.eqb x o then n else num s x) (olink s) (otype s) (clink s).
-Definition set_link (s : st) (o : oid) :=
-  mkst (objs s) (cache s) (num s) (fun x => if Nat.eqb x o then true else olink s x) (otype s) (clink s).
+  mkst (objs s) (cache s) (fun x => if Nat.eqb x o then n else num s x) (okey s) (olink s) (otype s)
+       (clink s) (fobjs s).
+Definition set_olink (s : st) (o : oid) (k : link) :=
+  mkst (objs s) (cache s) (num s) (okey s) (fun x => if Nat.eqb x o then k else olink s x) (otype s)
+       (clink s) (fobjs s).
+Definition set_link (s : st) (o : oid) := set_olink s o LThis.
+Definition set_fobjs (s : st) l :=
+  mkst (objs s) (cache s) (num s) (okey s) (olink s) (otype s) (clink s) l.
+
+(* Python ==  (`a is b or a == b` in list.remove / list.index / `in`) *)
+Definition oeq (s : st) (a b : oid) : bool :=
+  Nat.eqb a b || (Nat.eqb (okey s a) (okey s b) && (num s a =? num s b)).
+(* the first member that equals x *)
+Definition find_eq (s : st) (x : oid) : option oid := find (fun e => oeq s e x) (objs s).
 
 Definition numbers_of (s : st) : list Z := map (num s) (objs s).
+Definition fnumbers_of (s : st) : list Z := map (num s) (fobjs s).
 Definition mem_Z (n : Z) (l : list Z) : bool := existsb (Z.eqb n) l.
 Definition mem_o (o : oid) (l : list oid) : bool := existsb (Nat.eqb o) l.
 
@@ -126,15 +154,21 @@ Definition check_number (s : st) (n : Z) : st * res :=
   if b then (s', RErr NumberConflict) else (s', ROk).
 
 (* the number setter of a member kind: isinstance int is implicit (n : Z);
-   n <= 0 -> ValueError; if the object is linked, problem.<coll>.check_number *)
+   n <= 0 -> ValueError; if the object is linked, <its problem>.<coll>.check_number: this
+   collection for LThis, the other problem's collection for LOther (whose cache is not modelled:
+   nothing reads it) *)
 Definition set_number (s : st) (o : oid) (n : Z) : st * res :=
   if n <=? 0 then (s, RErr ValueErr)
-  else if olink s o then
-         match check_number s n with
-         | (s', ROk) => (set_num s' o n, ROk)
-         | (s', r) => (s', r)
-         end
-       else (set_num s o n, ROk).
+  else match olink s o with
+       | LThis =>
+           match check_number s n with
+           | (s', ROk) => (set_num s' o n, ROk)
+           | (s', r) => (s', r)
+           end
+       | LOther =>
+           if mem_Z n (fnumbers_of s) then (s, RErr NumberConflict) else (set_num s o n, ROk)
+       | LNone => (set_num s o n, ROk)
+       end.
 
 Definition link_if (s : st) (o : oid) : st := if clink s then set_link s o else s.
 Fixpoint link_all (s : st) (l : list oid) : st :=
@@ -231,11 +265,14 @@ Fixpoint remove_first (o : oid) (l : list oid) : list oid :=
   | x :: r => if Nat.eqb x o then r else x :: remove_first o r
   end.
 
-(* remove(obj): cache eviction, then list.remove (ValueError if absent) *)
-Definition remove (s : st) (o : oid) : st * res :=
-  if mem_o o (objs s)
-  then (set_objs (set_cache s (cache_evict (cache_pop (cache s) (num s o)) o)) (remove_first o (objs s)), ROk)
-  else (set_cache s (cache_pop (cache s) (num s o)), RErr ValueErr).
+(* remove(delete): pop the cache entry of delete.number; list.remove takes out the first member
+   that EQUALS delete (ValueError if none); __evict drops the entries that point at delete itself *)
+Definition remove (s : st) (x : oid) : st * res :=
+  let c1 := cache_pop (cache s) (num s x) in
+  match find_eq s x with
+  | Some e => (set_objs (set_cache s (cache_evict c1 x)) (remove_first e (objs s)), ROk)
+  | None => (set_cache s c1, RErr ValueErr)
+  end.
 
 Fixpoint remove_nth {A} (n : nat) (l : list A) : list A :=
   match n, l with
@@ -256,13 +293,25 @@ Definition pop (s : st) (pos : Z) : st * res :=
        | None => (s, RErr IndexErr)
        end.
 
+(* del c[n]: obj = self[n]; pop the cache entry; idx = self._objects.index(obj) (first member that
+   EQUALS obj, ValueError if none); del self._objects[idx]; __evict(obj) *)
 Definition delitem (s : st) (n : Z) : st * res :=
   match get s n with
   | (s1, Some o) =>
-      (set_objs (set_cache s1 (cache_evict (cache_pop (cache s1) (num s1 o)) o))
-                (remove_first o (objs s1)), ROk)
+      let c1 := cache_pop (cache s1) (num s1 o) in
+      match find_eq s1 o with
+      | Some e => (set_objs (set_cache s1 (cache_evict c1 o)) (remove_first e (objs s1)), ROk)
+      | None => (set_cache s1 c1, RErr ValueErr)
+      end
   | (s1, None) => (s1, RErr KeyErr)
   end.
+
+(* other_problem.<collection>.append(o): that collection is linked to its problem, so the object
+   is taken over *)
+Definition fappend (s : st) (o : oid) : st * res :=
+  if negb (otype s o) then (s, RErr TypeErr)
+  else if mem_Z (num s o) (fnumbers_of s) then (s, RErr NumberConflict)
+  else (set_olink (set_fobjs s (fobjs s ++ [o])) o LOther, ROk).
 
 Definition clear (s : st) : st * res := (set_objs (set_cache s []) [], ROk).
 
@@ -316,6 +365,18 @@ Definition slice (s : st) (ostart ostop ostep : option Z) : st * res :=
       (s3, RObjs l)
   end.
 
+(* c[a:b:c].append(x): the slice is a new free-standing collection of the objects found, with a
+   cache of its own; appending to it checks the class and the numbers of ITS members and leaves
+   this collection, the object's number and its link alone *)
+Definition slice_append (s : st) (a b c : option Z) (x : oid) : st * res :=
+  match slice s a b c with
+  | (s1, RObjs l) =>
+      if negb (otype s1 x) then (s1, RErr TypeErr)
+      else if mem_Z (num s1 x) (map (num s1) l) then (s1, RErr NumberConflict)
+      else (s1, ROk)
+  | (s1, r) => (s1, r)
+  end.
+
 Definition step (s : st) (o : op) : st * res :=
   match o with
   | Append x => append s x
@@ -333,7 +394,7 @@ Definition step (s : st) (o : op) : st * res :=
                  | (s1, Some x) => (s1, RObj (Some x))
                  | (s1, None) => (s1, RErr KeyErr)
                  end
-  | Contains x => (s, RBool (mem_o x (objs s)))
+  | Contains x => (s, RBool (existsb (fun e => oeq s e x) (objs s)))
   | Numbers => let (s1, ns) := all_numbers s in (s1, RNums ns)
   | Keys => (s, RNums (numbers_of s))
   | Len => (s, RNum (Z.of_nat (List.length (objs s))))
@@ -341,6 +402,23 @@ Definition step (s : st) (o : op) : st * res :=
   | RequestNumber a k => request_number s a k
   | NextNumber k => next_number s k
   | Slice a b c => slice s a b c
+  | FAppend x => fappend s x
+  | SliceAppend a b c x => slice_append s a b c x
+  end.
+
+(* premises of the invariant theorem, as booleans (Proofs/CollProofs.v: op_okb_spec):
+   [setnum_seen]: the setter of a member validates against this collection, or the object is not a
+   member, or the number is free;  [remove_same]: remove(x) takes out x itself, or nothing *)
+Definition setnum_seen (s : st) (x : oid) (n : Z) : bool :=
+  match olink s x with LThis => true | _ => false end
+  || negb (mem_o x (objs s)) || negb (mem_Z n (numbers_of s)).
+Definition remove_same (s : st) (x : oid) : bool :=
+  match find_eq s x with Some e => Nat.eqb e x | None => true end.
+Definition op_okb (s : st) (o : op) : bool :=
+  match o with
+  | SetNum x n => setnum_seen s x n
+  | Remove x => remove_same s x
+  | _ => true
   end.
 
 Fixpoint run (s : st) (ops : list op) : st :=
@@ -355,18 +433,21 @@ Fixpoint init_cache (numf : oid -> Z) (l : list oid) (c : list (Z * oid)) : opti
               | None => init_cache numf r (cache_set c (numf o) o)
               end
   end.
-Definition init (l : list oid) (numf : oid -> Z) (lk : oid -> bool) (ty : oid -> bool) (cl : bool)
-  : option st :=
+Definition init (l : list oid) (numf : oid -> Z) (kf : oid -> nat) (lk : oid -> link)
+           (ty : oid -> bool) (cl : bool) (fl : list oid) : option st :=
   if negb (forallb ty l) then None
   else match init_cache numf l [] with
-       | Some c => Some (mkst l c numf lk ty cl)
+       | Some c => Some (mkst l c numf kf lk ty cl fl)
        | None => None
        end.
 
 (* ------------------------------------------------------------------ *)
 (* wire protocol: request =
-     "<clink> <n_objects> <numbers,...> <linked,...> <types,...> <members,...> | op ; op ; ..."
-   response = one result per op joined by ';', then '|' members '|' cache (sorted by caller) *)
+     "<clink> <numbers,...> <links 0|1|2,...> <types,...> <keys,...> <members,...> <foreign members,...> | op ; op ; ..."
+   response = one result per op joined by ';', then '|' members '|' cache (sorted by caller)
+              '|' links of all objects '|' foreign members
+              '|' positions of the SetNum operations outside the premise setnum_seen
+              '|' positions of the Remove operations outside the premise remove_same *)
 
 Definition show_err (e : err) : string :=
   match e with
@@ -418,6 +499,10 @@ Definition parse_op (s : string) : option op :=
   | ["slice"; a; b; c] =>
       match parse_optZ a, parse_optZ b, parse_optZ c with
       | Some a, Some b, Some c => Some (Slice a b c) | _, _, _ => None end
+  | ["fappend"; a] => option_map FAppend (parse_nat a)
+  | ["slice_append"; a; b; c; x] =>
+      match parse_optZ a, parse_optZ b, parse_optZ c, parse_nat x with
+      | Some a, Some b, Some c, Some x => Some (SliceAppend a b c x) | _, _, _, _ => None end
   | _ => None
   end%string.
 
@@ -428,6 +513,24 @@ Fixpoint run_show (s : st) (ops : list op) (acc : list string) : st * list strin
   | [] => (s, rev acc)
   | o :: r => let (s1, x) := step s o in run_show s1 r (show_res x :: acc)
   end.
+
+(* positions (from i) of the operations of kind [sel] whose premise does not hold in the state
+   they are applied to *)
+Fixpoint premise_breaks (sel : op -> bool) (s : st) (ops : list op) (i : nat) : list nat :=
+  match ops with
+  | [] => []
+  | o :: r =>
+      let rest := premise_breaks sel (fst (step s o)) r (S i) in
+      if sel o && negb (op_okb s o) then i :: rest else rest
+  end.
+Definition is_setnum (o : op) : bool := match o with SetNum _ _ => true | _ => false end.
+Definition is_remove (o : op) : bool := match o with Remove _ => true | _ => false end.
+
+Definition parse_link (s : string) : option link :=
+  if String.eqb s "0" then Some LNone else if String.eqb s "1" then Some LThis
+  else if String.eqb s "2" then Some LOther else None.
+Definition show_link (k : link) : string :=
+  match k with LNone => "0" | LThis => "1" | LOther => "2" end.
 
 Definition show_cache (c : list (Z * oid)) : string :=
   show_list (fun p => show_Z (fst p) ++ ">" ++ show_nat (snd p))%string c.
@@ -440,19 +543,25 @@ Definition run_Coll (req : string) : string :=
   match split_on "|"%char req with
   | [hd; opss] =>
       match words hd with
-      | [cl; nums; lks; tys; mems] =>
-          match is_true cl, parse_list parse_Z nums, parse_list is_true lks,
-                parse_list is_true tys, parse_list parse_nat mems,
+      | [cl; nums; lks; tys; keys; mems; fmems] =>
+          match is_true cl, parse_list parse_Z nums, parse_list parse_link lks,
+                parse_list is_true tys, parse_list parse_nat keys, parse_list parse_nat mems,
+                parse_list parse_nat fmems,
                 map_opt parse_op (filter (fun w => negb (String.eqb w "")) (map (fun x => join " " (words x)) (split_on ";"%char opss))) with
-          | Some cl, Some nums, Some lks, Some tys, Some mems, Some ops =>
-              match init mems (nth_fun nums 0) (nth_fun lks false) (nth_fun tys false) cl with
+          | Some cl, Some nums, Some lks, Some tys, Some keys, Some mems, Some fmems, Some ops =>
+              match init mems (nth_fun nums 0) (nth_fun keys 0%nat) (nth_fun lks LNone)
+                         (nth_fun tys false) cl fmems with
               | None => "init:err"
               | Some s0 =>
                   let (s1, outs) := run_show s0 ops [] in
                   (join ";" outs ++ "|" ++ show_list show_nat (objs s1) ++ "|"
-                   ++ show_cache (cache s1))%string
+                   ++ show_cache (cache s1) ++ "|"
+                   ++ show_list show_link (map (olink s1) (seq 0 (List.length nums))) ++ "|"
+                   ++ show_list show_nat (fobjs s1) ++ "|"
+                   ++ show_list show_nat (premise_breaks is_setnum s0 ops 0) ++ "|"
+                   ++ show_list show_nat (premise_breaks is_remove s0 ops 0))%string
               end
-          | _, _, _, _, _, _ => "parse:err"
+          | _, _, _, _, _, _, _, _ => "parse:err"
           end
       | _ => "parse:hd"
       end
